@@ -7,6 +7,7 @@ package main
 
 import (
 	"crypto/sha256"
+	"crypto/sha512"
 	"encoding/hex"
 	"encoding/json"
 	"os"
@@ -106,10 +107,15 @@ func nn(s []string) []string {
 // (or, for objects the source does not have, whether it hashes to its own name).
 func (w *world) identical(dig string, content []byte) bool {
 	h := hexSum(content)
-	if n, ok := w.byDig[dig]; ok {
-		return h == hexSum(w.nodes[n].Raw) && "sha256:"+h == dig
+	own := "sha256:" + h
+	if strings.HasPrefix(dig, "sha512:") {
+		s5 := sha512.Sum512(content)
+		own = "sha512:" + hex.EncodeToString(s5[:])
 	}
-	return "sha256:"+h == dig
+	if n, ok := w.byDig[dig]; ok {
+		return h == hexSum(w.nodes[n].Raw) && own == dig
+	}
+	return own == dig
 }
 
 func (s *snap) finish() {
@@ -201,34 +207,36 @@ func (w *world) snapOneDir(s *snap, dir, pfx string) {
 			}
 		}
 	}
-	ents, _ := os.ReadDir(filepath.Join(dir, "blobs", "sha256"))
-	for _, e := range ents {
-		fn := e.Name()
-		if e.IsDir() || strings.HasSuffix(fn, ".tmp") || len(fn) != 64 {
-			continue
-		}
-		b, err := os.ReadFile(filepath.Join(dir, "blobs", "sha256", fn))
-		if err != nil {
-			continue
-		}
-		d := "sha256:" + fn
-		n := w.name(d)
-		isMan := false
-		if nd, ok := w.nodes[n]; ok {
-			isMan = nd.isMan()
-		} else if _, _, ok := parseKids(b); ok {
-			isMan = true
-			if !w.derived[pfx+n] {
-				s.newDerived[pfx+n] = b
+	for _, alg := range []string{"sha256", "sha512"} {
+		ents, _ := os.ReadDir(filepath.Join(dir, "blobs", alg))
+		for _, e := range ents {
+			fn := e.Name()
+			if e.IsDir() || strings.HasSuffix(fn, ".tmp") || (len(fn) != 64 && len(fn) != 128) {
+				continue
 			}
-		}
-		switch {
-		case !w.identical(d, b):
-			s.Bad = append(s.Bad, pfx+n)
-		case isMan:
-			s.Mans = append(s.Mans, pfx+n)
-		default:
-			s.Blobs = append(s.Blobs, pfx+n)
+			b, err := os.ReadFile(filepath.Join(dir, "blobs", alg, fn))
+			if err != nil {
+				continue
+			}
+			d := alg + ":" + fn
+			n := w.name(d)
+			isMan := false
+			if nd, ok := w.nodes[n]; ok {
+				isMan = nd.isMan()
+			} else if _, _, ok := parseKids(b); ok {
+				isMan = true
+				if !w.derived[pfx+n] {
+					s.newDerived[pfx+n] = b
+				}
+			}
+			switch {
+			case !w.identical(d, b):
+				s.Bad = append(s.Bad, pfx+n)
+			case isMan:
+				s.Mans = append(s.Mans, pfx+n)
+			default:
+				s.Blobs = append(s.Blobs, pfx+n)
+			}
 		}
 	}
 }
